@@ -119,3 +119,24 @@ def cases(tier, seed):
                 add("realign.index", dict(rdims=[dA, dB], cdims=[dA2, dB2], dimform="omitted"), "realignment/omitted")
                 add("realign.index", dict(rdims=[dA, dB], cdims=[dA2, dB2], dimform="scalar"), "realignment/scalar")
     return out
+
+
+# ---------------------------------------------------------------------------------------------
+# memory-layout variants: the same values handed over Fortran-ordered and as a non-contiguous strided view
+# ---------------------------------------------------------------------------------------------
+_cases_c_layout = cases
+_LAYOUT_CLAUSES = {"ps.index", "vec.index", "ptrace.index", "ptranspose.index", "realign.index"}
+
+
+def cases(tier, seed):  # noqa: F811
+    base = _cases_c_layout(tier, seed)
+    extra = []
+    k = 0
+    for c in base:
+        prm = c.get("params", {})
+        if c["clause"] in _LAYOUT_CLAUSES and prm.get("entries", "arange") != "sym" and not prm.get("sparse"):
+            k += 1
+            if k % (3 if tier == "thorough" else 6) == 0:
+                for lay in ("F", "view"):
+                    extra.append(dict(c, params=dict(prm, layout=lay), input_class=c["input_class"] + "/layout-" + lay))
+    return base + extra
